@@ -679,7 +679,7 @@ func (w *walker) tryCmd() bool {
 			}
 		}
 		if w.force {
-		} else if !onPath && t != w.cur && w.r.Chance(2, 3) {
+		} else if !onPath && t != w.cur {
 			return false
 		}
 		if !w.force && !onPath && t == w.cur && w.r.Chance(3, 4) {
